@@ -1,11 +1,11 @@
 """what MANIFEST.json claims, per property (kept next to the code that implements it)"""
-NOTES = ('Technique family: static analysis only. Every check recompiles /repo\'s working tree to LLVM IR (clang-14 -O0 + mem2reg, '
+NOTES = ('Technique family: static analysis only. Every check recompiles /repo\'s working tree to LLVM IR (clang-14 -O0, then opt-14 mem2reg/instsimplify/early-cse/jump-threading/simplifycfg; functions the rules do not know by name are inlined first, '
          'the repo\'s own flags, all 22 compile commands of the four libraries) in a scratch directory and decides structural clauses '
          'of the property with repository-specific rules; exit 0 pass, 1 violation (VIOLATION line + report file), 2 analysis broken '
          '(anchor vanished / undecidable form / instance count below the confirmed minimum). Clauses that quantify over runtime values '
          'are not decided; they are listed in each level_note and in DESIGN.md section 4. No check executes library code; '
          'replays/ holds triage programs that no registered check runs.')
-_T = 'Trusted: clang-14 front end and mem2reg, the textual IR loader, debug-info field/enumerator names, the external contract table (libc, zlib, pthread, dl*, ISA-L).'
+_T = 'Trusted: clang-14 front end and the named opt-14 canonicalisation passes, the textual IR loader, debug-info field/enumerator names, the external contract table (libc, zlib, pthread, dl*, ISA-L).'
 CHECKS = {
  'C01': dict(
   technique='loop/cursor dataflow rules and pointer-provenance rules over LLVM IR',
@@ -148,3 +148,36 @@ CHECKS = {
   note='NOT decided: that decoding the remaining fragments is correct (C01). ' + _T),
 }
 NOT_APPLICABLE = {}
+
+
+# clauses added after the second wave of seeded changes (rules are described in DESIGN.md section 8.5)
+ADDED = {
+ 'C01': 'Also: the data-fragment count gating the copy-out path of decode is incremented only when an empty slot is filled (R01e); the allocation '
+        'wrappers return NULL only after a failed allocation or for a negative size, so 0-byte objects are served (R01f); the stores of the XOR and '
+        'RS block kernels tile [0, blocksize) exactly, decided as polynomial identities over loop recurrences (R01d).',
+ 'C02': 'Also: the built-in RS decode/reconstruct refuse only when the missing count is >= m+1 - the premise under which their adapters may drop the '
+        'result (R02f); XOR index-space typing (R05e, shared with C05).',
+ 'C03': 'Also: bitmaps assembled from index lists in loops accumulate (R05i); every copy-out reachable from the backend call passes the serializer.',
+ 'C04': 'Also: every row walk of the generator construction starts at column 0 and visits k columns, helper walks run their count parameter (R04e); '
+        'the GF tables are completed inside the mutex (R18b, shared with C18).',
+ 'C05': 'Also: bitmap accumulation (R05i).',
+ 'C06': 'Also: list bitmaps (int shift, sign-extending at index 31) are consumed only by single-bit tests (R06f); the XOR solvers receive '
+        'missing-element lists extracted from the merged requested+excluded list (R06g).',
+ 'C07': 'Also: kernel tiling (R01d) and word-size agreement (R08a) are shared here because parity bytes and fragment geometry depend on them.',
+ 'C08': 'Also: size queries test the descriptor look-up before use (R13b, shared).',
+ 'C09': 'Also: the historical CRC function is decided by evaluating its IR update step on all byte values (R10d, shared with C10).',
+ 'C10': 'R10d now evaluates the loop-carried update expression of liberasurecode_crc32_alt (extracted from the IR) for 256 byte values x 38 register '
+        'values against the reference step, instead of matching its shape.',
+ 'C11': 'Also: after the magic is accepted, native and opposite-endian paths of the metadata query return the same set of values (R11e); R10d shared.',
+ 'C12': 'Also: helper getters accept native-order headers only (R09d, shared) and the rebuilt fragment\'s checksum is taken after the backend wrote the payload (R10e, shared).',
+ 'C14': 'Also: the registry search returns NULL only after the whole list and an entry only under idesc == desc (R14i); reference counting of the GF '
+        'tables is path-sensitive through the wrappers and the counter update is decided as a value function (R14f).',
+ 'C15': 'Also: supplied destination fragments are copied out, never rewritten (R03b/R03c shared); GF table reference counting (R14f shared).',
+ 'C16': 'Also: GF table reference counting (R14f shared).',
+ 'C17': 'Also: GF table reference counting on failing creates (R14f shared) and lock release on every path (R18d shared).',
+ 'C18': 'Also: a pointer read from the registry list is not used for list surgery after the lock was released and re-taken (R18e).',
+ 'C19': 'Also: list bitmaps consumed only by single-bit tests (R06f).',
+ 'C20': 'Also: exact index test of the metadata verifier (R12a shared).',
+}
+for _k, _v in ADDED.items():
+    CHECKS[_k]['text'] += ' ' + _v
